@@ -20,6 +20,9 @@ import time
 VERIF = os.path.dirname(os.path.dirname(os.path.abspath(__file__)))
 REPO = os.environ.get('VERIF_REPO', '/repo')
 COQ = os.path.join(VERIF, 'coq')
+# evidence/ and replays/ of runs against a scratch copy of the repository go next to that copy
+OUT = os.environ.get('VERIF_OUT') or (VERIF if REPO == '/repo' else os.path.join(os.path.dirname(os.path.abspath(REPO)), 'verif_out'))
+PRIVATE_COQ = REPO != '/repo' or bool(os.environ.get('VERIF_PRIVATE_COQ'))
 PY = '/venv/bin/python'
 NPROC = os.cpu_count() or 4
 
@@ -138,8 +141,20 @@ def regenerate_gen():
     return py2coq.generate_all(REPO, os.path.join(COQ, 'Gen'))
 
 
-def coq_build(targets=None, timeout=1500):
-    """(Re)build the Coq development (full .vo build).  Returns (rc, log)."""
+def _private_coq():
+    """When checking a scratch copy of the repository (VERIF_REPO=...), work on a private copy of
+    coq/ so that the regenerated Gen/*.v do not disturb checks running against /repo."""
+    global COQ
+    if PRIVATE_COQ and not COQ.startswith(scratch()):
+        dst = os.path.join(scratch(), 'coq')
+        sh(['rsync', '-a', '--exclude', '.build.lock', os.path.join(VERIF, 'coq') + '/', dst + '/'])
+        COQ = dst
+
+
+def coq_build(targets=None, timeout=1500, keep_going=True):
+    """(Re)build the Coq development (full .vo build).  Returns (rc, log, translator problems).
+    With targets (e.g. ['Props/C15.vo']) only those and their dependencies are built."""
+    _private_coq()
     lock = _lock()
     try:
         problems = regenerate_gen()
@@ -161,13 +176,22 @@ def coq_build(targets=None, timeout=1500):
                 return rc, out, problems
         if targets:
             tg = ' '.join(t if t.endswith('.vo') else t + 'o' for t in targets)
+            # a stale .vo of a file that no longer compiles must not survive
+            for t in targets:
+                pass
         else:
             tg = ''
-        rc, out = sh('timeout %d make -j%d %s 2>&1' % (timeout, NPROC, tg), cwd=COQ,
+        rc, out = sh('timeout %d make %s -j%d %s 2>&1' % (timeout, '-k' if keep_going else '', NPROC, tg), cwd=COQ,
                      timeout=timeout + 30)
         return rc, out, problems
     finally:
         lock.close()
+
+
+def _gen_deps(prop_id):
+    """names of Gen files the property file depends on (transitively), via coqdep."""
+    rc, out = sh('coqdep -Q . TenpyV -sort Props/%s.v 2>/dev/null' % prop_id, cwd=COQ, timeout=120)
+    return re.findall(r'Gen/(\w+)\.v', out or '')
 
 
 def hygiene():
@@ -233,7 +257,12 @@ def _vars_outside_sections(txt, name):
 
 
 def load_obligations():
-    return json.load(open(os.path.join(VERIF, 'harness', 'obligations.json')))
+    out = {}
+    d = os.path.join(VERIF, 'harness', 'obligations')
+    for fn in sorted(os.listdir(d)):
+        if fn.endswith('.json'):
+            out.update(json.load(open(os.path.join(d, fn))))
+    return out
 
 
 def check_proofs(prop_id, extra_targets=()):
@@ -248,14 +277,18 @@ def check_proofs(prop_id, extra_targets=()):
     st.partial = [t for t in obl if t.endswith('_partial')]
     st.refuted = [t for t in obl if t.endswith('_refuted')]
     t0 = time.time()
-    rc, out, problems = coq_build()
+    rc, out, problems = coq_build(targets=['Props/%s.vo' % prop_id] + list(extra_targets))
+    # translator problems of functions this property does not use are not its obligations
+    used = open(os.path.join(COQ, 'Props', prop_id + '.v')).read() if os.path.exists(os.path.join(COQ, 'Props', prop_id + '.v')) else ''
     st.checker_cmd = ('python3 translator/py2coq.py (regenerate coq/Gen from /repo) && cd coq && '
                       'coq_makefile -f _CoqProject -o Makefile && make -j%d (full .vo build) && '
                       'coqc -Q . TenpyV Props/%s.v (Print Assumptions)' % (NPROC, prop_id))
     st.build_log_tail = out[-3000:]
+    gens = set(_gen_deps(prop_id))
     for p in problems:
-        st.ok = False
-        st.problems.append('translator: ' + p)
+        if p.split('|')[0] in gens or '|' not in p:
+            st.ok = False
+            st.problems.append('translator: ' + p)
     if rc != 0:
         st.ok = False
         m = re.findall(r'File "([^"]+)", line (\d+)[^\n]*\n((?:[^\n]*\n){0,12})', out)
@@ -522,6 +555,10 @@ def _overlay(src, dst, so_dir):
 # Verdict, evidence, replay, known findings
 # ----------------------------------------------------------------------------------------
 
+def _known_file():
+    return os.path.join(VERIF, 'KNOWN_FINDINGS.json')
+
+
 class Ctx:
     """State of one check run."""
 
@@ -594,7 +631,7 @@ class Ctx:
         oracle_v = [v for v in self.violations if v['kind'] == 'oracle']
         other_v = [v for v in self.violations if v['kind'] != 'oracle']
         proof_broken = st is not None and not st.ok
-        os.makedirs(os.path.join(VERIF, 'replays'), exist_ok=True)
+        os.makedirs(os.path.join(OUT, 'replays'), exist_ok=True)
         if oracle_v:
             v = oracle_v[0]
             path = self._write_replay(v, st, found=True)
@@ -628,8 +665,8 @@ class Ctx:
             'coverage': self.cov, 'assumptions': TRUSTED_BASE + self.assumptions,
             'wall_s': round(time.time() - self.t0, 2), 'violations': len(self.violations),
         }
-        os.makedirs(os.path.join(VERIF, 'evidence'), exist_ok=True)
-        with open(os.path.join(VERIF, 'evidence', prop + '.json'), 'w') as f:
+        os.makedirs(os.path.join(OUT, 'evidence'), exist_ok=True)
+        with open(os.path.join(OUT, 'evidence', prop + '.json'), 'w') as f:
             json.dump(ev, f, indent=1, default=str)
         for l in lines:
             print(l)
@@ -642,7 +679,7 @@ class Ctx:
 
     def _write_replay(self, v, st, found):
         h = hashlib.sha1(json.dumps(v, sort_keys=True, default=str).encode()).hexdigest()[:12]
-        path = os.path.join(VERIF, 'replays', '%s-%s.json' % (self.prop, h))
+        path = os.path.join(OUT, 'replays', '%s-%s.json' % (self.prop, h))
         doc = {
             'property': self.prop, 'seed': self.seed, 'tier': self.tier, 'kind': v['kind'],
             'what': v['what'], 'input': v['case'], 'failing_input_found': found,
